@@ -50,6 +50,9 @@ type Result struct {
 	Hist    []string          `json:"hist,omitempty"`
 	Rounds  int               `json:"rounds,omitempty"`
 	Line    string            `json:"line,omitempty"` // the final model input line (with oracle answers)
+	// what the model's own parser makes of the source text of an evaluation case ("A <ast>" or the
+	// error tuple); when it is an AST, the model evaluates THAT tree, not the implementation's
+	ModelParse string `json:"model_parse,omitempty"`
 }
 
 var evalTimeout = 5 * time.Second
@@ -628,6 +631,7 @@ func main() {
 	var results []*Result
 	lines := map[string]string{}
 	plines := map[string]string{}
+	srclines := map[string]string{} // evaluation cases: the source text, for the model's parser
 	for sc.Scan() {
 		if len(bytes.TrimSpace(sc.Bytes())) == 0 {
 			continue
@@ -662,6 +666,9 @@ func main() {
 			if line != "" {
 				lines[c.ID] = line
 			}
+			if r.Compile == "ok" || strings.HasPrefix(r.Compile, "E ") {
+				srclines[c.ID] = c.ID + "|P|" + hex.EncodeToString([]byte(c.Expr)) + "|"
+			}
 		}
 		rr := r
 		results = append(results, &rr)
@@ -671,8 +678,25 @@ func main() {
 		}
 	}
 	if *model != "" {
+		// end to end: the model parses the source text itself and evaluates its own tree
+		sfinal, _ := runModel(*model, "parse", srclines, *shards)
+		for id, pm := range sfinal {
+			l, ok := lines[id]
+			if !ok || !strings.HasPrefix(pm, "A ") {
+				continue
+			}
+			parts := strings.SplitN(l, "|", 4)
+			if len(parts) == 4 {
+				lines[id] = parts[0] + "|" + parts[1] + "|" + pm[2:] + "|" + parts[3]
+			}
+		}
 		final, rounds := runModel(*model, "eval", lines, *shards)
 		pfinal, _ := runModel(*model, "parse", plines, *shards)
+		for _, r := range results {
+			if pm, ok := sfinal[r.ID]; ok {
+				r.ModelParse = pm
+			}
+		}
 		n := 0
 		for _, r := range results {
 			if m, ok := final[r.ID]; ok {
